@@ -47,7 +47,7 @@ Proof.
 Qed.
 
 (* a step on another type leaves names, nonce and existence of t's watch alone *)
-Lemma step_other st o t : op_ty o <> t -> same_sub (snd (step NilIgnore st o) t) (st t).
+Lemma step_other st o t : op_ty o <> t -> same_sub (snd (step st o) t) (st t).
 Proof.
   intros H. destruct o as [r|r|t0 n ok|t0 n ok nn]; cbn in H; cbn [step snd].
   - unfold should_respond, nack. destruct (r_err r).
@@ -85,7 +85,7 @@ Qed.
 (* a request that is not answered: the nonce on record is untouched, and if the request was
    no rejection and carried the nonce on record, its names are now the record *)
 Lemma sr_not_answered st r out st' :
-  should_respond NilIgnore st r = (out, st') -> (forall s, out <> Resp true s) ->
+  should_respond st r = (out, st') -> (forall s, out <> Resp true s) ->
   (forall w', st' (r_ty r) = Some w' -> exists w, st (r_ty r) = Some w /\ nonce_sent w' = nonce_sent w) /\
   (r_err r = None -> (forall w, st (r_ty r) = Some w -> r_nonce r = nonce_sent w) ->
    record st' (r_ty r) = norm (r_names r)).
@@ -158,9 +158,9 @@ Proof.
   - intros H. destruct (s_c2s s); discriminate.
 Qed.
 
-Lemma sstep_inv s l : sinv s -> sinv (sstep t s l).
+Lemma sstep_inv s l : sends_ok l = true -> sinv s -> sinv (sstep t s l).
 Proof.
-  intros Hinv. pose proof Hinv as [HF [H1 [H23 H5]]]. destruct l as [S'|e|n|n|o]; unfold sstep.
+  intros Hsend Hinv. pose proof Hinv as [HF [H1 [H23 H5]]]. destruct l as [S'|e|n sends|n|o]; unfold sstep.
   - (* CSub *) apply sinv_append; auto.
   - (* CRecv *) destruct (s_s2c s) as [|n rest] eqn:Es; [exact Hinv|].
     apply sinv_append; auto. intros w Hw. rewrite <- (H23 w Hw). symmetry. apply last_cons.
@@ -171,7 +171,7 @@ Proof.
     assert (HFr : Forall (fun m => r_ty m = t) rest) by (inversion HF; assumption).
     assert (H1r : forall pre m, rest = pre ++ [m] -> r_names m = s_S s /\ r_nonce m = s_cn s).
     { intros pre m ->. apply (H1 (r :: pre) m). reflexivity. }
-    destruct (should_respond NilIgnore (s_srv s) r) as [out st'] eqn:Esr.
+    destruct (should_respond (s_srv s) r) as [out st'] eqn:Esr.
     assert (Hans : forall subs, out = Resp true subs ->
               sinv (mkS (send st' t n true) rest (s_s2c s ++ [n]) (s_S s) (s_cn s) (is_some (r_err r)) true)).
     { intros subs _. unfold sinv. cbn. repeat split; auto.
@@ -194,7 +194,7 @@ Proof.
         + intros w Hw. rewrite Hcn. specialize (H23 w Hw). rewrite Hs2c in H23. exact H23. }
     destruct out as [|b subs|].
     + apply Hsil. discriminate.
-    + destruct b; [eapply Hans; reflexivity|apply Hsil; discriminate].
+    + destruct b; [|apply Hsil; discriminate]. cbn in Hsend. rewrite Hsend. eapply Hans; reflexivity.
     + apply Hsil. discriminate.
   - (* SPush *) destruct (n =? 0) eqn:Hn; [exact Hinv|]. apply N.eqb_neq in Hn.
     destruct (s_srv s t) as [w0|] eqn:Ew; [|exact Hinv].
@@ -215,9 +215,11 @@ Proof.
     + intros Hc Hs Hnp Hln. rewrite (same_sub_record _ _ _ Hss). apply H5; assumption.
 Qed.
 
-Lemma srun_inv ls : forall s, sinv s -> sinv (srun t s ls).
+Lemma srun_inv ls : forall s, forallb sends_ok ls = true -> sinv s -> sinv (srun t s ls).
 Proof.
-  unfold srun. induction ls as [|l ls IH]; intros s H; cbn; [exact H|]. apply IH. apply sstep_inv. exact H.
+  unfold srun. induction ls as [|l ls IH]; intros s Hs H; cbn; [exact H|].
+  cbn in Hs. apply andb_true_iff in Hs. destruct Hs as [Hs1 Hs2].
+  apply IH; [exact Hs2|]. apply sstep_inv; assumption.
 Qed.
 
 Lemma sinit_inv st0 cn0 : st0 t = None -> sinv (sinit st0 cn0).
@@ -231,12 +233,26 @@ Proof.
 Qed.
 
 Theorem record_matches_client_sotw st0 cn0 ls :
-  st0 t = None ->
+  st0 t = None -> forallb sends_ok ls = true ->
   let s := srun t (sinit st0 cn0) ls in
   s_c2s s = [] -> s_s2c s = [] -> s_np s = true -> s_ln s = false ->
   record (s_srv s) t = norm (s_S s).
 Proof.
-  intros H0 s. pose proof (srun_inv ls _ (sinit_inv st0 cn0 H0)) as [_ [_ [_ H5]]]. exact H5.
+  intros H0 Hs s. pose proof (srun_inv ls _ Hs (sinit_inv st0 cn0 H0)) as [_ [_ [_ H5]]]. exact H5.
 Qed.
 
 End SotwLoop.
+
+(* without the hypothesis the statement is false: an answered re-subscription for which nothing is
+   sent leaves NonceSent empty, and the next request - carrying the nonce the client holds - is
+   classified stale *)
+Definition no_send_schedule : list slabel :=
+  [ CSub [1]; SProc 1 true; CRecv None; SProc 9 true; CSub []; SProc 9 true;
+    CSub [1]; SProc 2 false; CSub [1; 2]; SProc 3 true ].
+
+Lemma record_matches_client_sotw_refuted :
+  exists t ls, is_debug t = false /\
+    let s := srun t (sinit empty_watched 0) ls in
+    s_c2s s = [] /\ s_s2c s = [] /\ s_np s = true /\ s_ln s = false /\
+    record (s_srv s) t <> norm (s_S s).
+Proof. exists SDS, no_send_schedule. vm_compute. repeat split. discriminate. Qed.
